@@ -110,8 +110,10 @@ def solver_cmd(name, timeout):
     raise ValueError(name)
 
 
-def script_for(path, goal, with_model=False, pin=None):
-    """Compose the SMT-LIB script for one goal of one path (goal None = path feasibility)."""
+def script_for(path, goal, with_model=False, pin=None, bare=False):
+    """Compose the SMT-LIB script for one goal of one path (goal None = path feasibility).
+    bare: leave out the precondition, the path condition and the lemma hypotheses (fewer assumptions:
+    an `unsat` answer is still valid for the full script; used as a cheap first attempt)."""
     s = []
     if with_model:
         s.append("(set-option :produce-models true)")
@@ -125,22 +127,24 @@ def script_for(path, goal, with_model=False, pin=None):
         defs = defs[: int(goal["kind"].split(":")[1])]
     for a in defs:
         s.append("(assert %s)" % a)
-    for a in path["pre"]:
-        s.append("(assert %s)" % a)
-    for a in path["pi"]:
-        s.append("(assert %s)" % a)
+    if not bare:
+        for a in path["pre"]:
+            s.append("(assert %s)" % a)
+        for a in path["pi"]:
+            s.append("(assert %s)" % a)
     if pin:
         for a in pin:
             s.append("(assert %s)" % a)
     if goal is not None:
-        for h in goal.get("hyps", []):
-            s.append("(assert %s)" % h)
+        if not bare:
+            for h in goal.get("hyps", []):
+                s.append("(assert %s)" % h)
         s.append("(assert (not %s))" % goal["smt"])
     s.append("(check-sat)")
     if with_model:
         names = list(path["inputs"])
         for t in path["trig"]:
-            names += ["sn%d" % t["k"], "cs%d" % t["k"]]
+            names += ["sn.%d" % t["k"], "cs.%d" % t["k"]]
         if names:
             s.append("(get-value (%s))" % " ".join(names))
     return "\n".join(s) + "\n"
@@ -269,7 +273,7 @@ def inputs_from_model(path, vals):
     for t in path["trig"]:
         if t.get("var") is None:
             continue
-        sn, cs = vals.get("sn%d" % t["k"]), vals.get("cs%d" % t["k"])
+        sn, cs = vals.get("sn.%d" % t["k"]), vals.get("cs.%d" % t["k"])
         if sn is None or cs is None:
             continue
         scale = Fraction(t["n"], t["d"])  # arg = var * scale
@@ -409,12 +413,18 @@ def run_symx(prop, tier, seed, only=None):
             if pth["status"] == "abort":
                 continue
             need_feas = pth["ndec"] > 0 or pth["pre"] or pth["status"] == "panic"
-            if need_feas:
+            if need_feas and not pth.get("variant"):
                 tasks.append((s["name"], pth, None, min(to, 30)))
     # phase 1: feasibility
     def job(t):
         name, pth, g, to = t
         sc = script_for(pth, g)
+        if g is not None and g["kind"] == "goal" and (pth["pre"] or pth["pi"] or g.get("hyps")) and pth["logic"] in ("QF_NRA", "ALL"):
+            # identities usually hold without the path condition: try the bare script first (sound:
+            # fewer assumptions), which spares nlsat the inequalities of the path condition
+            v0, _, dt0 = run_solver(solver_cmd("z3", 5), script_for(pth, g, bare=True), 5)
+            if v0 == "unsat":
+                return t, {"verdict": "unsat", "solver": "z3(bare)", "time": dt0, "solvers": {"z3(bare)": "unsat"}, "sha": hashlib.sha1(sc.encode()).hexdigest()[:12], "trivial": g["smt"] in ("true",)}
         r = decide(sc, pth["logic"], to, cross=cross and g is not None)
         r["sha"] = hashlib.sha1(sc.encode()).hexdigest()[:12]
         r["trivial"] = g is not None and g["smt"] in ("true",)
@@ -434,6 +444,8 @@ def run_symx(prop, tier, seed, only=None):
                 continue
             f = feas.get((s["name"], pth["path"]))
             pth["_feas"] = "sat" if f is None else f["verdict"]
+            if pth.get("variant"):
+                pth["_variant"] = True
             if f is not None and f["verdict"] == "unsat":
                 continue
             for g in pth["goals"]:
@@ -509,8 +521,8 @@ def symx_report(prop, tier, seed, index, results, feas, meta, known):
             json.dump({"property": prop, "engine": "symx", "scenario": name, "goal": g["name"], "kind": g["kind"], "replay_engine": rep["engine"], "inputs": rep["inputs"], "how_found": rep["how"], "negated_goal_smt": g["smt"], "path_condition": pth["pi"], "precondition": pth["pre"]}, open(rp, "w"), indent=1)
             entry["replay_file"] = rp
             violations.append(entry)
-    npaths = sum(len(s["_paths"]) for s in index)
-    infeasible = sum(1 for s in index for p in s["_paths"] if p.get("_feas") == "unsat")
+    npaths = sum(1 for s in index for p in s["_paths"] if not p.get("variant"))
+    infeasible = sum(1 for s in index for p in s["_paths"] if p.get("_feas") == "unsat" and not p.get("variant"))
     vac = [s["name"] for s in index if all(p.get("_feas") == "unsat" or p["status"] == "abort" for p in s["_paths"])]
     cov = {
         "engine": "symx (generic instantiation of the real vek code at symbolic scalars; one SMT query per path x goal)",
